@@ -19,7 +19,13 @@
 //                  <blocks> "-" or ','-separated `S/H/f`: stated hash S (header id, or u<k> = a hash
 //                  of no header), header H (id or "-" for nil), f: 1 body present,
 //                  2 non-empty justification, 4 empty non-nil justification
-// observed: one entry per step, '|'-separated; A/K/F give "."; M gives
+// A case whose input starts with the keyword `prune ` (then the same three fields) runs against a block
+// state that PRUNES on finalisation like dot/state.BlockState: a finalisation (justified block
+// imported, or step Z<i> = GRANDPA finalises the stored header i) drops every stored header that is
+// neither an ancestor nor a descendant of the finalised one; K<i> stores header i with its parent
+// link; F steps are not used. The importer double then reports p<S> instead of o<S> when the missing
+// parent had been stored before (pruned since).
+// observed: one entry per step, '|'-separated; A/K/F/Z give "."; M gives
 //   m;<reputation change>;<incomplete>;<queue>   (reputation change "-" when none is returned;
 //   code 4 bad block announcement + errBadBlockReceived, 5 not relevant, 6 gossip success); P gives
 //   <status>;<events>;<reputation changes>;<bans>;<incomplete>;<disjoint>;<queue>;<accepted>
@@ -76,6 +82,47 @@ type c32World struct {
 	names   map[common.Hash]string
 	st      *c32State
 	events  []string
+	prune   bool                        // the block state prunes on finalisation
+	ever    map[common.Hash]bool        // every hash the block state ever had
+	parent  map[common.Hash]common.Hash // parent links of the stored headers
+}
+
+func (w *c32World) store(h common.Hash, parent common.Hash) {
+	w.st.known[h] = true
+	w.ever[h] = true
+	w.parent[h] = parent
+}
+
+// h and its ancestors as far as the stored headers lead (at most len(known)+1 hashes)
+func (w *c32World) ancestors(h common.Hash) map[common.Hash]bool {
+	out := map[common.Hash]bool{}
+	cur := h
+	for i := 0; i <= len(w.st.known); i++ {
+		out[cur] = true
+		if !w.st.known[cur] {
+			break
+		}
+		cur = w.parent[cur]
+	}
+	return out
+}
+
+// BlockTree.Prune as seen through HasHeader: keep f, its ancestors and its descendants
+func (w *c32World) finalise(f common.Hash, number uint) {
+	if number > w.st.finalised {
+		w.st.finalised = number
+	}
+	if !w.prune {
+		return
+	}
+	up := w.ancestors(f)
+	keep := map[common.Hash]bool{}
+	for h := range w.st.known {
+		if up[h] || w.ancestors(h)[f] {
+			keep[h] = true
+		}
+	}
+	w.st.known = keep
 }
 
 func (w *c32World) name(h common.Hash) string {
@@ -110,6 +157,10 @@ func (im c32Importer) importBlock(bd *types.BlockData, _ BlockOrigin) (bool, err
 	hh := bd.Header.Hash()
 	if bd.Body != nil {
 		if !w.st.known[bd.Header.ParentHash] { // handleBlock: GetHeader(parent) fails
+			if w.prune && w.ever[bd.Header.ParentHash] {
+				w.events = append(w.events, "p"+s)
+				return false, fmt.Errorf("%w: not found", errFailedToGetParent)
+			}
 			w.events = append(w.events, "o"+s)
 			return false, fmt.Errorf("%w: not found", errFailedToGetParent)
 		}
@@ -117,7 +168,7 @@ func (im c32Importer) importBlock(bd *types.BlockData, _ BlockOrigin) (bool, err
 			w.events = append(w.events, "d"+s)
 			return false, fmt.Errorf("block already exists")
 		}
-		w.st.known[hh] = true
+		w.store(hh, bd.Header.ParentHash)
 		w.events = append(w.events, "i"+s)
 	} else if !hasJust {
 		w.events = append(w.events, "n"+s)
@@ -127,21 +178,20 @@ func (im c32Importer) importBlock(bd *types.BlockData, _ BlockOrigin) (bool, err
 			w.events = append(w.events, "o"+s)
 			return false, fmt.Errorf("setting finalised hash: not found")
 		}
-		if bd.Header.Number > w.st.finalised {
-			w.st.finalised = bd.Header.Number
-		}
+		w.finalise(hh, bd.Header.Number)
 		w.events = append(w.events, "f"+s)
 	}
 	return true, nil
 }
 
 func c32NewWorld(hdrs string) *c32World {
-	w := &c32World{names: map[common.Hash]string{}, st: &c32State{known: map[common.Hash]bool{}}}
+	w := &c32World{names: map[common.Hash]string{}, st: &c32State{known: map[common.Hash]bool{}},
+		ever: map[common.Hash]bool{}, parent: map[common.Hash]common.Hash{}}
 	root := types.NewHeader(common.NewHash([]byte{0}), common.Hash{}, common.Hash{}, 0, types.NewDigest())
 	w.headers = append(w.headers, root)
 	w.hashes = append(w.hashes, root.Hash())
 	w.names[root.Hash()] = "0"
-	w.st.known[root.Hash()] = true
+	w.store(root.Hash(), root.ParentHash)
 	if hdrs != "-" {
 		for _, e := range strings.Split(hdrs, ";") {
 			f := strings.Split(e, ".")
@@ -391,8 +441,10 @@ func c32Run(in string) string {
 	if strings.HasPrefix(in, "imp ") {
 		return c32iRun(in) // harness_importer_test.go
 	}
-	parts := strings.Split(in, " ")
+	pruning := strings.HasPrefix(in, "prune ")
+	parts := strings.Split(strings.TrimPrefix(in, "prune "), " ")
 	w := c32NewWorld(parts[0])
+	w.prune = pruning
 	var bad []string
 	if parts[1] != "-" {
 		for _, b := range strings.Split(parts[1], ",") {
@@ -410,7 +462,16 @@ func c32Run(in string) string {
 				types.NewHeader(src.ParentHash, src.StateRoot, src.ExtrinsicsRoot, src.Number, src.Digest))
 			obs = append(obs, ".")
 		case 'K':
-			w.st.known[w.hashes[vu.UnX(step[1:])]] = true
+			id := vu.UnX(step[1:])
+			if !w.st.known[w.hashes[id]] {
+				w.store(w.hashes[id], w.headers[id].ParentHash)
+			}
+			obs = append(obs, ".")
+		case 'Z':
+			id := vu.UnX(step[1:])
+			if w.st.known[w.hashes[id]] {
+				w.finalise(w.hashes[id], w.headers[id].Number)
+			}
 			obs = append(obs, ".")
 		case 'F':
 			w.st.finalised = uint(vu.UnX(step[1:]))
@@ -435,6 +496,7 @@ func c32Run(in string) string {
 // ---------------------------------------------------------------- generation
 
 type c32Gen struct {
+	prune   bool // histories for the pruning block state: Z steps, more justifications
 	r       *vu.RNG
 	parent  []int    // header id -> parent id (genuine tree part), -1 for malformed headers
 	number  []uint64 // header id -> number
@@ -484,7 +546,7 @@ func (g *c32Gen) result(ids []int, fields uint64, damage int) string {
 		if fields&1 == 0 {
 			hdr[i] = "-"
 		}
-		if r.Chance(1, 12) {
+		if r.Chance(1, 12) || (g.prune && r.Chance(1, 6)) {
 			flags[i] |= 2
 		} else if r.Chance(1, 20) {
 			flags[i] |= 4
@@ -534,8 +596,8 @@ func (g *c32Gen) result(ids []int, fields uint64, damage int) string {
 	return fmt.Sprintf("%x:%d:%x:%x:%s", r.Intn(3), completed, fields, dir, c32Blocks(ids, stated, hdr, flags))
 }
 
-func c32GenCase(r *vu.RNG) string {
-	g := &c32Gen{r: r, parent: []int{-1}, number: []uint64{0}}
+func c32GenCase(r *vu.RNG, prune bool) string {
+	g := &c32Gen{r: r, prune: prune, parent: []int{-1}, number: []uint64{0}}
 	// genuine tree
 	nblocks := r.Range(1, 14)
 	if r.Chance(1, 4) {
@@ -582,7 +644,11 @@ func c32GenCase(r *vu.RNG) string {
 		}
 	}
 	if r.Chance(1, 6) {
-		steps = append(steps, fmt.Sprintf("F%x", r.Intn(4)))
+		if prune {
+			steps = append(steps, fmt.Sprintf("Z%x", r.Range(1, g.genuine)))
+		} else {
+			steps = append(steps, fmt.Sprintf("F%x", r.Intn(4)))
+		}
 	}
 	nproc := r.Range(1, 3)
 	for pc := 0; pc < nproc; pc++ {
@@ -669,14 +735,83 @@ func c32GenCase(r *vu.RNG) string {
 		}
 		steps = append(steps, "P"+strings.Join(results, "+"))
 		if r.Chance(1, 8) {
-			steps = append(steps, fmt.Sprintf("F%x", r.Intn(6)))
+			if prune {
+				steps = append(steps, fmt.Sprintf("Z%x", r.Range(1, g.genuine)))
+			} else {
+				steps = append(steps, fmt.Sprintf("F%x", r.Intn(6)))
+			}
 		}
 	}
 	hd := "-"
 	if len(g.hdrs) > 0 {
 		hd = strings.Join(g.hdrs, ";")
 	}
+	if prune {
+		return "prune " + hd + " " + bad + " " + strings.Join(steps, "|")
+	}
 	return hd + " " + bad + " " + strings.Join(steps, "|")
+}
+
+// c32GenPruneFork: two forks above a stored trunk; one response brings the next blocks of fork A, one
+// of them with a justification, another response brings blocks of fork B whose parent is stored:
+// importing the justified block finalises fork A and prunes fork B while its blocks still wait in
+// nextBlocksToImport (or in a later call).
+func c32GenPruneFork(r *vu.RNG) string {
+	g := &c32Gen{r: r, prune: true, parent: []int{-1}, number: []uint64{0}}
+	trunk := r.Range(0, 3)
+	for i := 0; i < trunk; i++ {
+		g.addHeader(uint64(i), uint64(i)+1, i)
+	}
+	mk := func(n int) []int {
+		var ids []int
+		p := trunk
+		for i := 0; i < n; i++ {
+			id := g.addHeader(uint64(p), g.number[p]+1, p)
+			ids = append(ids, id)
+			p = id
+		}
+		return ids
+	}
+	a, b := mk(r.Range(2, 4)), mk(r.Range(2, 4))
+	g.genuine = len(g.number) - 1
+	var steps []string
+	for i := 1; i <= trunk; i++ {
+		steps = append(steps, fmt.Sprintf("K%x", i))
+	}
+	ka, kb := r.Range(0, len(a)-1), r.Range(0, len(b)-1) // stored prefixes of the forks
+	for _, id := range a[:ka] {
+		steps = append(steps, fmt.Sprintf("K%x", id))
+	}
+	for _, id := range b[:kb] {
+		steps = append(steps, fmt.Sprintf("K%x", id))
+	}
+	blocks := func(ids []int, just int) string {
+		var bl []string
+		for i, id := range ids {
+			fl := 1
+			if i == just {
+				fl = 3
+			}
+			bl = append(bl, fmt.Sprintf("%x/%x/%x", id, id, fl))
+		}
+		return fmt.Sprintf("%x:1:13:0:%s", r.Intn(3), strings.Join(bl, ","))
+	}
+	ra := blocks(a[ka:], r.Intn(len(a)-ka))
+	rb := blocks(b[kb:], -1)
+	switch r.Intn(4) {
+	case 0:
+		steps = append(steps, "P"+rb+"+"+ra)
+	case 1:
+		steps = append(steps, "P"+ra, "P"+rb)
+	case 2:
+		steps = append(steps, "P"+rb, fmt.Sprintf("Z%x", a[0]), "P"+ra)
+	default:
+		steps = append(steps, "P"+ra+"+"+rb)
+	}
+	if r.Chance(1, 2) { // the pruned fork is delivered again
+		steps = append(steps, "P"+blocks(b, -1))
+	}
+	return "prune " + strings.Join(g.hdrs, ";") + " - " + strings.Join(steps, "|")
 }
 
 // all ways to cut the chain 1..L into contiguous responses, in every order of arrival, either
@@ -841,7 +976,15 @@ func c32GenAll(r *vu.RNG, n int, emit func(string)) {
 			emit(c32GenBatch(r))
 			continue
 		}
-		emit(c32GenCase(r))
+		if i%8 == 5 {
+			if i%16 == 5 {
+				emit(c32GenPruneFork(r))
+			} else {
+				emit(c32GenCase(r, true))
+			}
+			continue
+		}
+		emit(c32GenCase(r, false))
 	}
 	// the environment model against the real blockImporter (harness_importer_test.go)
 	c32iGen(r.Fork(), n/2, emit)
